@@ -65,6 +65,12 @@ def parseCfg (s : String) : Config :=
       match (g "sr").splitOn ":" with
       | [m, exts] => if m == "pin" then some (true, parseAddrs exts) else if m == "pina" then some (false, parseAddrs exts) else none
       | _ => none
+    hostRule :=
+      match (g "hr").splitOn ":" with
+      | [m, pin, ifc, exts] =>
+        -- `WithAddressRewriteRules` drops repeated external literals (`sanitizeExternalIPs`)
+        some { replace := m != "app", pin := Addr.ofTok? pin, iface := ifc.toNat?, exts := (parseAddrs exts).eraseDups }
+      | _ => none
     hold := g "hold" == "1" }
 
 def parseIfaces (s : String) : List Iface :=
@@ -240,6 +246,8 @@ def step (st : State) (toks : List String) (impl : String) : State × Res :=
     match newAgent cfg ifs with
     | .error .port => (none, { model := "r=err:port", prop := "C18" })
     | .error .uselessUrls => (none, { model := "r=err:uselessurls", prop := "C18" })
+    | .error .mdnsRewrite => (none, { model := "r=err:mdnsrewrite", prop := "C18" })
+    | .error .ineffectiveHost => (none, { model := "r=err:ineffective", prop := "C18" })
     | .ok ms =>
       let il := parseImpl impl
       let se : Session := { ms := ms, m18 := IceSpec.C18.MonSt.init, m09 := IceSpec.C09.MonSt.init }
